@@ -19,7 +19,7 @@ RULE = ("cases are strings: (tokens) every sequence of <=4 (thorough <=5) tokens
         "alphabet of digits, newlines, braces, arrows and format markers, enumerated "
         "exhaustively; (trunc) every prefix and every one-character deletion of one document "
         "per writer and per examples/ file; (text) Hypothesis text mixing markers, digits, line "
-        "breaks and printable Unicode; (own) outputs of all writers on generated caption sets "
+        "breaks and printable Unicode; (own) outputs of all writers on generated caption sets (integer or float times) "
         "whose text avoids the other formats' markers; (atheris) inputs kept by coverage-guided "
         "libFuzzer campaigns (fresh corpus, oracle inside the target), re-judged here. Non-trivial: the string has at most two "
         "lines, or is a truncated document, or at least one reader's detect() accepts it; for "
@@ -213,6 +213,12 @@ def own_strategy(tier):
                 for c in s["langs"][0]["cues"]:
                     if c["end"] < 40000:
                         c["end"] = 40000 + c["end"] % 1000
+        if draw(st.integers(0, 3)) == 0:
+            # times as the SCC reader (or arithmetic on times) leaves them: floats, whole or not
+            for c in s["langs"][0]["cues"]:
+                f = draw(st.sampled_from([0.0, 0.0, 0.5, 1 / 3, 0.666666666686]))
+                c["start"] = float(c["start"]) + f
+                c["end"] = float(c["end"]) + f
         return {"writer": w, "set": s}
     return build()
 
